@@ -35,6 +35,7 @@ import numpy as np  # noqa: E402
 EMPTY = -1
 NONUNIFORM = -2
 BADTICK = -99999
+OFF64 = 2 ** 64 - 2 ** 20    # see level_array
 BADLABEL = -3      # a result slice that is not labelled with row / column indices
 TICK = 1024  # ticks per second
 
@@ -93,6 +94,10 @@ def level_array(level: int, shape, dtype="float64", ramped: bool = True) -> np.n
     dt = np.dtype(dtype)
     if dt.kind == "u":
         arr = np.full(shape, level, dtype=np.int64) + (ramp(shape).astype(np.int64) if ramped else 0)
+        if dt.itemsize == 8:
+            # 64-bit codes live at the top of their range: level n is stored as OFF64 + n, so that a result which
+            # went through floating point (53 bits of mantissa) cannot reproduce them
+            return (arr.astype(np.uint64) + np.uint64(OFF64)).astype(dt)
         return arr.astype(dt)
     arr = np.full(shape, float(level)) + (ramp(shape) / 8.0 if ramped else 0.0)
     return arr.astype(dt)
@@ -106,6 +111,11 @@ def level_of(arr) -> int:
     if a.ndim != 2 or a.size == 0:
         return NONUNIFORM
     if a.dtype.kind in "ui":
+        if a.dtype == np.uint64:
+            if (a >= np.uint64(OFF64)).all():
+                a = a - np.uint64(OFF64)
+            elif (a >= np.uint64(2 ** 62)).any():
+                return NONUNIFORM
         a = a.astype(np.int64)
         for cand in (a - ramp(a.shape).astype(np.int64), a):
             if (cand == cand.flat[0]).all():
